@@ -36,7 +36,7 @@ def interesting_values(rng, w):
     return vs
 
 
-def gen(tier, rng):
+def gen(tier, rng, harness=None):
     lines = []
     if tier == "thorough":
         for w in range(1, 9):
